@@ -529,8 +529,11 @@ class PathAnalysis(flow.Analysis):
             if id(site_node) not in self.in_loop and not how.startswith("aug:"):
                 term = f"{term}{SEP}{hashlib.sha1(text.encode()).hexdigest()[:4]}"
             self.defs[term] = (text, value)
-            if isinstance(value, (ast.Tuple, ast.List, ast.Dict, ast.Set, ast.JoinedStr, ast.ListComp, ast.DictComp, ast.SetComp)) and not how:
+            never_none = (ast.Tuple, ast.List, ast.Dict, ast.Set, ast.JoinedStr, ast.ListComp, ast.DictComp, ast.SetComp)
+            if isinstance(value, never_none) and not how:
                 state = state.add_lit(f"{term} is not None")  # a display is never None
+            elif isinstance(value, ast.BoolOp) and isinstance(value.op, ast.Or) and not how and (isinstance(value.values[-1], never_none) or (isinstance(value.values[-1], ast.Constant) and value.values[-1].value is not None)):
+                state = state.add_lit(f"{term} is not None")  # `x or {}`: x if it is truthy (so not None), else the display
         else:
             self.defs[term] = (how, site_node)
         return state.with_env(name, term)
@@ -819,6 +822,8 @@ def _closed_truth(lit: str) -> Optional[bool]:
             return not ev(x.operand)
         if isinstance(x, ast.UnaryOp) and isinstance(x.op, ast.USub) and isinstance(x.operand, ast.Constant) and isinstance(x.operand.value, (int, float)):
             return -x.operand.value
+        if isinstance(x, ast.BoolOp) and isinstance(x.op, ast.Or) and isinstance(x.values[-1], (ast.List, ast.Set, ast.Dict)):
+            return _MUTABLE  # `x or {}`: x when it is truthy (so not None), else the display — never None
         if isinstance(x, ast.BoolOp):
             vals = [ev(v) for v in x.values]
             return all(vals) if isinstance(x.op, ast.And) else any(vals)
